@@ -113,6 +113,13 @@ func allCfgs() []map[string]any {
 			out = append(out, map[string]any{"tracing": false, "metrics": m, "sampler": "parentbased", "prop": p})
 		}
 	}
+	// sampler tables under which recording and the sampled flag part ways (CfgTables); twice,
+	// so that about half of the recorded executions run under one of them
+	for k := 0; k < 2; k++ {
+		for _, s := range []string{"t_rrr", "t_ssr", "t_rsd", "t_drs", "t_srd", "t_rdr", "t_nnn", "t_snn", "t_nsr"} {
+			out = append(out, map[string]any{"tracing": true, "metrics": true, "sampler": s, "prop": "w3c"})
+		}
+	}
 	return out
 }
 
